@@ -113,12 +113,43 @@ class Zoo:
             return None  # handled by document()
         raise ValueError(kind)
 
-    KINDS = ["binop", "if", "apply", "list", "set", "let", "with", "assert", "lambda", "select", "has_attr", "unary", "paren", "string"]
+    KINDS = ["binop", "if", "apply", "list", "set", "let", "with", "assert", "lambda", "select", "has_attr", "unary", "paren", "string", "merge"]
+
+    MERGE_NAMES = ["enable", "port", "host", "workers", "user", "group", "extraArgs", "package", "q", "zz"]
+
+    def merge_document(self):
+        """The same attrpath defined several times with set literals (Nix merges them; so does the parser):
+        later definitions bring one or several new names, optionally a nested family, in a set or a let layer."""
+        rng = self.rng
+        root = rng.choice(["s", "services.web", "a.b.c"])
+        names = list(self.MERGE_NAMES)
+        rng.shuffle(names)
+        lines = []
+        for _ in range(rng.randint(2, 3)):
+            n = rng.randint(1, 4)
+            take, names = names[:n], names[n:]
+            inner = " ".join("%s = %s;" % (k, self.atom() if rng.random() < 0.7 else "{ %s = %s; }" % (rng.choice(["u", "v"]), self.lit())) for k in take)
+            if "." in root and rng.random() < 0.8:
+                lines.append("%s = { %s };" % (root, inner))
+            else:
+                lines.append("%s.%s = { %s };" % (root, rng.choice(["m", "n"]), inner))
+            if rng.random() < 0.3:
+                lines.append("k%d = %s;" % (self.k, self.lit()))
+        in_let = rng.random() < 0.3
+        body = "\n".join("  " + ln for ln in lines)
+        if in_let:
+            text = "let\n" + body + "\nin\n{\n  x = 1;\n}\n"
+        else:
+            text = "{\n" + body + "\n}\n"
+        self.slots = []
+        return text, {"construct": "merge", "place": "let_layer" if in_let else "set", "gaps": [], "gap_seq": [root, len(lines)]}
 
     def document(self):
         """-> (text, facts).  `{ k = <construct>; … }` optionally under a wrapper or as the top-level expression."""
         rng = self.rng
         kind = rng.choice(self.KINDS)
+        if kind == "merge":
+            return self.merge_document()
         place = rng.choice(["binding", "binding", "binding", "toplevel", "let_binding", "list_item"])
         self.slots = []
         self.extra = {}
